@@ -1,1 +1,405 @@
--- C11 theorems
+/-
+C11 — property theorems for the Nataf transformation (`rpm/nataf.py`).
+
+Model over ℝ.  Everything the code takes from `scipy`/`numpy` is a *parameter*, nothing is postulated:
+`F i`, `Finv i`, `f i` are the cdf / ppf / pdf of marginal `i`; `Φ`, `Φinv`, `φ` are the standard
+normal cdf / quantile / pdf; `L` is the Cholesky factor of the latent correlation matrix
+(`L * Lᵀ = ρ_Z`) and `Linv` the matrix that `np.linalg.solve( L, · )` applies.  Each theorem lists
+exactly the relations between these parameters that it needs.
+
+    getU( X ):  Z[d] = norm.ppf( dist[d].cdf( X[d] ) );  U = solve( L, Z )
+                diagMat[d,d] = norm.pdf( Z[d] ) / dist[d].pdf( X[d] );  J = diagMat @ L
+    getX( U ):  Z = L @ U;  X[d] = dist[d].ppf( norm.cdf( Z[d] ) )
+                diagMat[d,d] = dist[d].pdf( X[d] ) / norm.pdf( Z[d] );  J = solve( L, diagMat )
+    pdf( X ):   prod_i f_i(X_i) / prod_i φ(Z_i) * mvn_pdf( Z ; cov = ρ_Z )
+    cdf( X ):   mvn_cdf( Z ; cov = ρ_Z )
+-/
+import Mathlib.Data.Matrix.Mul
+import Mathlib.Data.Matrix.Diagonal
+import Mathlib.Analysis.Calculus.Deriv.Add
+import Mathlib.Analysis.Calculus.Deriv.Mul
+import Mathlib.Analysis.Calculus.Deriv.Comp
+import Mathlib.Analysis.SpecialFunctions.Log.Basic
+import Mathlib.Analysis.SpecialFunctions.Sqrt
+import Mathlib.Algebra.BigOperators.Fin
+import Mathlib.Tactic.Ring
+import Mathlib.Tactic.Linarith
+import Mathlib.Tactic.FieldSimp
+import Mathlib.Tactic.Positivity
+
+namespace FF
+noncomputable section Nataf
+
+open Matrix
+
+variable {n : ℕ}
+variable (F Finv f : Fin n → ℝ → ℝ) (Φ Φinv φ : ℝ → ℝ) (L Linv : Matrix (Fin n) (Fin n) ℝ)
+
+/-! ### Model -/
+
+/-- `Z[d] = norm.ppf( dist[d].cdf( X[d] ) )`. -/
+def zOfX (x : Fin n → ℝ) : Fin n → ℝ := fun i => Φinv (F i (x i))
+
+/-- `U = solve( L, Z )`. -/
+def getU (x : Fin n → ℝ) : Fin n → ℝ := Linv.mulVec (zOfX F Φinv x)
+
+/-- `Z = L @ U; X[d] = dist[d].ppf( norm.cdf( Z[d] ) )`. -/
+def getX (u : Fin n → ℝ) : Fin n → ℝ := fun i => Finv i (Φ ((L.mulVec u) i))
+
+/-- The matrix `J` returned by `getU( X )`: `diag( φ(Z_d) / f_d(X_d) ) @ L`. -/
+def jacReturnedByGetU (x : Fin n → ℝ) : Matrix (Fin n) (Fin n) ℝ :=
+  Matrix.diagonal (fun i => φ (zOfX F Φinv x i) / f i (x i)) * L
+
+/-- The matrix `J` returned by `getX( U )`: `solve( L, diag( f_d(X_d) / φ(Z_d) ) )`. -/
+def jacReturnedByGetX (u : Fin n → ℝ) : Matrix (Fin n) (Fin n) ℝ :=
+  Linv * Matrix.diagonal (fun i => f i (getX Finv Φ L u i) / φ ((L.mulVec u) i))
+
+/-- `pdf( X )`, with the multivariate normal density `mvn` (covariance `ρ_Z`) as a parameter. -/
+def pdf (mvn : (Fin n → ℝ) → ℝ) (x : Fin n → ℝ) : ℝ :=
+  (∏ i, f i (x i)) / (∏ i, φ (zOfX F Φinv x i)) * mvn (zOfX F Φinv x)
+
+/-- `cdf( X )`, with the multivariate normal cdf `mvnCdf` (covariance `ρ_Z`) as a parameter. -/
+def cdf (mvnCdf : (Fin n → ℝ) → ℝ) (x : Fin n → ℝ) : ℝ := mvnCdf (zOfX F Φinv x)
+
+/-! ### 1. Round trips -/
+
+/-- `L @ getU( X ) = Z( X )` as soon as `solve( L, · )` really inverts `L`. -/
+theorem C11_L_mulVec_getU (hL : L * Linv = 1) (x : Fin n → ℝ) :
+    L.mulVec (getU F Φinv Linv x) = zOfX F Φinv x := by
+  unfold getU
+  rw [Matrix.mulVec_mulVec, hL, Matrix.one_mulVec]
+
+/-- `getX( getU( X ) ) = X`. -/
+theorem C11_roundtrip_X (x : Fin n → ℝ)
+    (hL : L * Linv = 1)
+    (hΦ : ∀ i, Φ (Φinv (F i (x i))) = F i (x i))
+    (hF : ∀ i, Finv i (F i (x i)) = x i) :
+    getX Finv Φ L (getU F Φinv Linv x) = x := by
+  funext i
+  unfold getX
+  rw [C11_L_mulVec_getU F Φinv L Linv hL x]
+  unfold zOfX
+  rw [hΦ i, hF i]
+
+/-- `Z( getX( U ) ) = L @ U`. -/
+theorem C11_zOfX_getX (u : Fin n → ℝ)
+    (hF : ∀ i, F i (Finv i (Φ ((L.mulVec u) i))) = Φ ((L.mulVec u) i))
+    (hΦ : ∀ i, Φinv (Φ ((L.mulVec u) i)) = (L.mulVec u) i) :
+    zOfX F Φinv (getX Finv Φ L u) = L.mulVec u := by
+  funext i
+  unfold zOfX getX
+  rw [hF i, hΦ i]
+
+/-- `getU( getX( U ) ) = U`. -/
+theorem C11_roundtrip_U (u : Fin n → ℝ)
+    (hL : Linv * L = 1)
+    (hF : ∀ i, F i (Finv i (Φ ((L.mulVec u) i))) = Φ ((L.mulVec u) i))
+    (hΦ : ∀ i, Φinv (Φ ((L.mulVec u) i)) = (L.mulVec u) i) :
+    getU F Φinv Linv (getX Finv Φ L u) = u := by
+  unfold getU
+  rw [C11_zOfX_getX F Finv Φ Φinv L u hF hΦ, Matrix.mulVec_mulVec, hL, Matrix.one_mulVec]
+
+/-! ### 2. The two returned matrices are mutually inverse -/
+
+/-- At corresponding points (`L @ u = Z(x)`, `getX u = x`; both follow from `u = getU x` by the
+round-trip theorems) with non-vanishing densities, the two returned matrices are inverse to each
+other. -/
+theorem C11_jacobians_inverse (x u : Fin n → ℝ)
+    (hz : L.mulVec u = zOfX F Φinv x) (hx : getX Finv Φ L u = x)
+    (hf : ∀ i, f i (x i) ≠ 0) (hφ : ∀ i, φ (zOfX F Φinv x i) ≠ 0)
+    (hL : L * Linv = 1) (hL' : Linv * L = 1) :
+    jacReturnedByGetU F f Φinv φ L x * jacReturnedByGetX Finv f Φ φ L Linv u = 1 ∧
+    jacReturnedByGetX Finv f Φ φ L Linv u * jacReturnedByGetU F f Φinv φ L x = 1 := by
+  unfold jacReturnedByGetU jacReturnedByGetX
+  rw [hz, hx]
+  have hab : (fun i => φ (zOfX F Φinv x i) / f i (x i) * (f i (x i) / φ (zOfX F Φinv x i)))
+      = fun _ => (1 : ℝ) := by
+    funext i
+    have h1 := hf i
+    have h2 := hφ i
+    field_simp
+  have hba : (fun i => f i (x i) / φ (zOfX F Φinv x i) * (φ (zOfX F Φinv x i) / f i (x i)))
+      = fun _ => (1 : ℝ) := by
+    funext i
+    have h1 := hf i
+    have h2 := hφ i
+    field_simp
+  constructor
+  · rw [Matrix.mul_assoc, ← Matrix.mul_assoc L Linv, hL, Matrix.one_mul,
+      Matrix.diagonal_mul_diagonal, hab, Matrix.diagonal_one]
+  · rw [Matrix.mul_assoc, ← Matrix.mul_assoc (Matrix.diagonal _) (Matrix.diagonal _) L,
+      Matrix.diagonal_mul_diagonal, hba, Matrix.diagonal_one, Matrix.one_mul, hL']
+
+/-- Version of `C11_jacobians_inverse` at `u = getU x`, with the correspondence derived from the
+round-trip hypotheses. -/
+theorem C11_jacobians_inverse_at_getU (x : Fin n → ℝ)
+    (hL : L * Linv = 1) (hL' : Linv * L = 1)
+    (hΦ : ∀ i, Φ (Φinv (F i (x i))) = F i (x i))
+    (hF : ∀ i, Finv i (F i (x i)) = x i)
+    (hf : ∀ i, f i (x i) ≠ 0) (hφ : ∀ i, φ (zOfX F Φinv x i) ≠ 0) :
+    jacReturnedByGetU F f Φinv φ L x
+        * jacReturnedByGetX Finv f Φ φ L Linv (getU F Φinv Linv x) = 1 ∧
+    jacReturnedByGetX Finv f Φ φ L Linv (getU F Φinv Linv x)
+        * jacReturnedByGetU F f Φinv φ L x = 1 :=
+  C11_jacobians_inverse F Finv f Φ Φinv φ L Linv x _
+    (C11_L_mulVec_getU F Φinv L Linv hL x)
+    (C11_roundtrip_X F Finv Φ Φinv L Linv x hL hΦ hF) hf hφ hL hL'
+
+/-! ### 3. Each returned matrix is the derivative of the *other* map -/
+
+/-- Changing one coordinate of the argument of `M.mulVec` moves component `i` along column `j`. -/
+theorem mulVec_update_apply (M : Matrix (Fin n) (Fin n) ℝ) (v : Fin n → ℝ) (j : Fin n) (t : ℝ)
+    (i : Fin n) :
+    (M.mulVec (Function.update v j t)) i = (M.mulVec v) i + M i j * (t - v j) := by
+  have hupd : Function.update v j t = v + Pi.single j (t - v j) := by
+    funext k
+    by_cases hk : k = j
+    · subst hk; simp
+    · simp [hk]
+  rw [hupd, Matrix.mulVec_add, Pi.add_apply, Matrix.mulVec_single]
+  simp
+
+/-- Partial derivative of component `i` of `M.mulVec` in coordinate `j` is `M i j`. -/
+theorem hasDerivAt_mulVec_update (M : Matrix (Fin n) (Fin n) ℝ) (v : Fin n → ℝ) (i j : Fin n) :
+    HasDerivAt (fun t => (M.mulVec (Function.update v j t)) i) (M i j) (v j) := by
+  have h : HasDerivAt (fun t => (M.mulVec v) i + M i j * (t - v j)) (M i j * 1) (v j) :=
+    (((hasDerivAt_id (v j)).sub_const (v j)).const_mul (M i j)).const_add _
+  rw [mul_one] at h
+  refine h.congr_of_eventuallyEq (Filter.Eventually.of_forall fun t => ?_)
+  exact mulVec_update_apply M v j t i
+
+/-- Entry form: `∂ getX(u)_i / ∂ u_j` is entry `(i,j)` of the matrix that `getU` returns (at the
+point `getX u`).  Hypotheses only at the points actually used.  (`hFinv` with `f = 0` would assert
+a zero derivative; non-vanishing of `f` is therefore not a separate hypothesis.) -/
+theorem C11_getU_matrix_entry_is_partial_of_getX (u : Fin n → ℝ) (i j : Fin n)
+    (hΦ : HasDerivAt Φ (φ ((L.mulVec u) i)) ((L.mulVec u) i))
+    (hFinv : HasDerivAt (Finv i) (1 / f i (Finv i (Φ ((L.mulVec u) i)))) (Φ ((L.mulVec u) i)))
+    (hz : zOfX F Φinv (getX Finv Φ L u) i = (L.mulVec u) i) :
+    HasDerivAt (fun t => getX Finv Φ L (Function.update u j t) i)
+      (jacReturnedByGetU F f Φinv φ L (getX Finv Φ L u) i j) (u j) := by
+  have hlin := hasDerivAt_mulVec_update L u i j
+  have h0 : (L.mulVec u) i = (L.mulVec (Function.update u j (u j))) i := by
+    rw [Function.update_eq_self]
+  have h1 : HasDerivAt (Φ ∘ fun t => (L.mulVec (Function.update u j t)) i)
+      (φ ((L.mulVec u) i) * L i j) (u j) := hΦ.comp_of_eq (u j) hlin h0
+  have h2 : HasDerivAt (Finv i ∘ (Φ ∘ fun t => (L.mulVec (Function.update u j t)) i))
+      (1 / f i (Finv i (Φ ((L.mulVec u) i))) * (φ ((L.mulVec u) i) * L i j)) (u j) :=
+    hFinv.comp_of_eq (u j) h1 (by simp [Function.update_eq_self])
+  have hval : jacReturnedByGetU F f Φinv φ L (getX Finv Φ L u) i j
+      = 1 / f i (Finv i (Φ ((L.mulVec u) i))) * (φ ((L.mulVec u) i) * L i j) := by
+    unfold jacReturnedByGetU
+    rw [Matrix.diagonal_mul, hz]
+    unfold getX
+    ring
+  rw [hval]
+  exact h2
+
+/-- The matrix returned by `getU` is the Jacobian of `getX` (not of `getU`, as its docstring
+says): for all `i j`, `∂ getX(u)_i / ∂ u_j = jacReturnedByGetU (getX u) i j`. -/
+theorem C11_getU_matrix_is_derivative_of_getX (u : Fin n → ℝ)
+    (hΦ : ∀ t, HasDerivAt Φ (φ t) t)
+    (hFinv : ∀ i, HasDerivAt (Finv i) (1 / f i (Finv i (Φ ((L.mulVec u) i))))
+      (Φ ((L.mulVec u) i)))
+    (hz : zOfX F Φinv (getX Finv Φ L u) = L.mulVec u) :
+    ∀ i j, HasDerivAt (fun t => getX Finv Φ L (Function.update u j t) i)
+      (jacReturnedByGetU F f Φinv φ L (getX Finv Φ L u) i j) (u j) := fun i j =>
+  C11_getU_matrix_entry_is_partial_of_getX F Finv f Φ Φinv φ L u i j (hΦ _) (hFinv i)
+    (congrFun hz i)
+
+/-- `Z( x[j ↦ t] ) = Z( x )[j ↦ Φinv (F j t)]`: the marginal map acts coordinatewise. -/
+theorem zOfX_update (x : Fin n → ℝ) (j : Fin n) (t : ℝ) :
+    zOfX F Φinv (Function.update x j t)
+      = Function.update (zOfX F Φinv x) j (Φinv (F j t)) := by
+  funext k
+  by_cases hk : k = j
+  · subst hk; simp [zOfX]
+  · simp [zOfX, hk]
+
+/-- Entry form: `∂ getU(x)_i / ∂ x_j` is entry `(i,j)` of the matrix that `getX` returns (at the
+point `getU x`).  Full statement, all `i j` (not only the diagonal structure). -/
+theorem C11_getX_matrix_entry_is_partial_of_getU (x : Fin n → ℝ) (i j : Fin n)
+    (hF : HasDerivAt (F j) (f j (x j)) (x j))
+    (hΦinv : HasDerivAt Φinv (1 / φ (Φinv (F j (x j)))) (F j (x j)))
+    (hx : getX Finv Φ L (getU F Φinv Linv x) j = x j)
+    (hz : (L.mulVec (getU F Φinv Linv x)) j = zOfX F Φinv x j) :
+    HasDerivAt (fun t => getU F Φinv Linv (Function.update x j t) i)
+      (jacReturnedByGetX Finv f Φ φ L Linv (getU F Φinv Linv x) i j) (x j) := by
+  have h1 : HasDerivAt (Φinv ∘ F j) (1 / φ (Φinv (F j (x j))) * f j (x j)) (x j) :=
+    hΦinv.comp (x j) hF
+  have h2 : HasDerivAt
+      (fun t => (Linv.mulVec (zOfX F Φinv x)) i + Linv i j * ((Φinv ∘ F j) t - zOfX F Φinv x j))
+      (Linv i j * (1 / φ (Φinv (F j (x j))) * f j (x j))) (x j) :=
+    ((h1.sub_const _).const_mul (Linv i j)).const_add _
+  have hval : jacReturnedByGetX Finv f Φ φ L Linv (getU F Φinv Linv x) i j
+      = Linv i j * (1 / φ (Φinv (F j (x j))) * f j (x j)) := by
+    unfold jacReturnedByGetX
+    rw [Matrix.mul_diagonal, hx, hz]
+    unfold zOfX
+    ring
+  rw [hval]
+  refine h2.congr_of_eventuallyEq (Filter.Eventually.of_forall fun t => ?_)
+  show getU F Φinv Linv (Function.update x j t) i = _
+  unfold getU
+  rw [zOfX_update, mulVec_update_apply]
+  rfl
+
+/-- The matrix returned by `getX` is the Jacobian of `getU` (not of `getX`, as its docstring
+says): for all `i j`, `∂ getU(x)_i / ∂ x_j = jacReturnedByGetX (getU x) i j`. -/
+theorem C11_getX_matrix_is_derivative_of_getU (x : Fin n → ℝ)
+    (hF : ∀ i, HasDerivAt (F i) (f i (x i)) (x i))
+    (hΦinv : ∀ i, HasDerivAt Φinv (1 / φ (Φinv (F i (x i)))) (F i (x i)))
+    (hx : getX Finv Φ L (getU F Φinv Linv x) = x)
+    (hz : L.mulVec (getU F Φinv Linv x) = zOfX F Φinv x) :
+    ∀ i j, HasDerivAt (fun t => getU F Φinv Linv (Function.update x j t) i)
+      (jacReturnedByGetX Finv f Φ φ L Linv (getU F Φinv Linv x) i j) (x j) := fun i j =>
+  C11_getX_matrix_entry_is_partial_of_getU F Finv f Φ Φinv φ L Linv x i j (hF j) (hΦinv j)
+    (congrFun hx j) (congrFun hz j)
+
+/-! ### 4. Independent case: `pdf` and `cdf` factorise -/
+
+/-- If the latent density is the product of standard normal densities (identity correlation), the
+Nataf density is the product of the marginal densities. -/
+theorem C11_pdf_factorises (mvn : (Fin n → ℝ) → ℝ) (x : Fin n → ℝ)
+    (hmvn : ∀ z, mvn z = ∏ i, φ (z i))
+    (hφ : ∀ i, φ (zOfX F Φinv x i) ≠ 0) :
+    pdf F f Φinv φ mvn x = ∏ i, f i (x i) := by
+  unfold pdf
+  rw [hmvn]
+  have hprod : (∏ i, φ (zOfX F Φinv x i)) ≠ 0 := Finset.prod_ne_zero_iff.mpr fun i _ => hφ i
+  field_simp
+
+/-- If the latent cdf is the product of standard normal cdfs (identity correlation), the Nataf cdf
+is the product of the marginal cdfs. -/
+theorem C11_cdf_factorises (mvnCdf : (Fin n → ℝ) → ℝ) (x : Fin n → ℝ)
+    (hmvnc : ∀ z, mvnCdf z = ∏ i, Φ (z i))
+    (hΦ : ∀ i, Φ (Φinv (F i (x i))) = F i (x i)) :
+    cdf F Φinv mvnCdf x = ∏ i, F i (x i) := by
+  unfold cdf
+  rw [hmvnc]
+  exact Finset.prod_congr rfl fun i _ => hΦ i
+
+/-! ### 5. Normal marginals: the latent correlation is the correlation of `X` -/
+
+/-- With normal marginals (`Finv i (Φ z) = μ i + σ i * z`, `σ i ≠ 0`) the standardised physical
+variable is the latent variable, pointwise. -/
+theorem C11_normal_standardised (μ σ : Fin n → ℝ) (u : Fin n → ℝ) (i : Fin n)
+    (hN : Finv i (Φ ((L.mulVec u) i)) = μ i + σ i * (L.mulVec u) i) (hσ : σ i ≠ 0) :
+    (getX Finv Φ L u i - μ i) / σ i = (L.mulVec u) i := by
+  unfold getX
+  rw [hN]
+  field_simp
+  ring
+
+/-- Normal marginals: for *any* correlation functional `C` on pairs of random variables (functions
+of `u`), the standardised `X` have the same correlation as the latent `Z = L u`; and for any
+linear "expectation" `E` under which the `u_k` are uncorrelated with unit second moment, that
+common correlation matrix is `L * Lᵀ` (the `ρ_Z` whose Cholesky factor is `L`).  So for normal
+marginals `ρ_Z = ρ_X`. -/
+theorem C11_normal_latent (μ σ : Fin n → ℝ)
+    (hN : ∀ i z, Finv i (Φ z) = μ i + σ i * z) (hσ : ∀ i, σ i ≠ 0) :
+    (∀ i, (fun u => (getX Finv Φ L u i - μ i) / σ i) = fun u => (L.mulVec u) i) ∧
+    (∀ (C : ((Fin n → ℝ) → ℝ) → ((Fin n → ℝ) → ℝ) → ℝ) i j,
+      C (fun u => (getX Finv Φ L u i - μ i) / σ i) (fun u => (getX Finv Φ L u j - μ j) / σ j)
+        = C (fun u => (L.mulVec u) i) (fun u => (L.mulVec u) j)) ∧
+    (∀ (E : ((Fin n → ℝ) → ℝ) →ₗ[ℝ] ℝ),
+      (∀ k l, E (fun u => u k * u l) = if k = l then 1 else 0) →
+      ∀ i j, E (fun u => (getX Finv Φ L u i - μ i) / σ i * ((getX Finv Φ L u j - μ j) / σ j))
+        = (L * Lᵀ) i j) := by
+  have hpt : ∀ i, (fun u => (getX Finv Φ L u i - μ i) / σ i) = fun u => (L.mulVec u) i :=
+    fun i => funext fun u => C11_normal_standardised Finv Φ L μ σ u i (hN i _) (hσ i)
+  refine ⟨hpt, fun C i j => by rw [hpt i, hpt j], fun E hE i j => ?_⟩
+  have hfun : (fun u : Fin n → ℝ =>
+        (getX Finv Φ L u i - μ i) / σ i * ((getX Finv Φ L u j - μ j) / σ j))
+      = ∑ k, ∑ l, (L i k * L j l) • (fun u : Fin n → ℝ => u k * u l) := by
+    funext u
+    rw [congrFun (hpt i) u, congrFun (hpt j) u]
+    simp only [Matrix.mulVec, dotProduct, Finset.sum_apply, Pi.smul_apply, smul_eq_mul]
+    rw [Finset.sum_mul_sum]
+    refine Finset.sum_congr rfl fun k _ => Finset.sum_congr rfl fun l _ => ?_
+    ring
+  rw [hfun]
+  simp only [map_sum, map_smul, hE, smul_eq_mul, mul_ite, mul_one, mul_zero,
+    Finset.sum_ite_eq, Finset.mem_univ, if_true, Matrix.mul_apply, Matrix.transpose_apply]
+
+/-! ### 6. Lognormal marginals: the closed form of the latent correlation -/
+
+/-- For two lognormal marginals with log-standard-deviations `s1 s2`, latent correlation `ρZ` gives
+physical correlation `(exp(ρZ s1 s2) - 1) / sqrt((exp(s1²)-1)(exp(s2²)-1))`.  The closed form
+`ρZ = log(1 + ρ sqrt(..)) / (s1 s2)` inverts that relation. -/
+theorem C11_lognormal_closed_form (s1 s2 ρ : ℝ) (hs1 : s1 ≠ 0) (hs2 : s2 ≠ 0)
+    (hpos : 0 < 1 + ρ * Real.sqrt ((Real.exp (s1 ^ 2) - 1) * (Real.exp (s2 ^ 2) - 1))) :
+    (Real.exp (Real.log (1 + ρ * Real.sqrt ((Real.exp (s1 ^ 2) - 1) * (Real.exp (s2 ^ 2) - 1)))
+        / (s1 * s2) * s1 * s2) - 1)
+      / Real.sqrt ((Real.exp (s1 ^ 2) - 1) * (Real.exp (s2 ^ 2) - 1)) = ρ := by
+  have h1 : 0 < Real.exp (s1 ^ 2) - 1 := by
+    have : 0 < s1 ^ 2 := by positivity
+    have := Real.add_one_lt_exp (ne_of_gt this)
+    linarith
+  have h2 : 0 < Real.exp (s2 ^ 2) - 1 := by
+    have : 0 < s2 ^ 2 := by positivity
+    have := Real.add_one_lt_exp (ne_of_gt this)
+    linarith
+  have hA : 0 < Real.sqrt ((Real.exp (s1 ^ 2) - 1) * (Real.exp (s2 ^ 2) - 1)) :=
+    Real.sqrt_pos.mpr (mul_pos h1 h2)
+  have hexp : Real.log (1 + ρ * Real.sqrt ((Real.exp (s1 ^ 2) - 1) * (Real.exp (s2 ^ 2) - 1)))
+        / (s1 * s2) * s1 * s2
+      = Real.log (1 + ρ * Real.sqrt ((Real.exp (s1 ^ 2) - 1) * (Real.exp (s2 ^ 2) - 1))) := by
+    field_simp
+  rw [hexp, Real.exp_log hpos]
+  field_simp
+  ring
+
+/-! ### Non-vacuity -/
+
+/-- The hypotheses of the round-trip / inverse-Jacobian theorems are jointly satisfiable: one
+marginal with cdf `F t = 2 t + 1`, ppf `Finv p = (p - 1) / 2`, pdf `f = 2`, and identity for the
+"normal" maps, `L = Linv = 1`. -/
+example :
+    let F : Fin 1 → ℝ → ℝ := fun _ t => 2 * t + 1
+    let Finv : Fin 1 → ℝ → ℝ := fun _ p => (p - 1) / 2
+    let f : Fin 1 → ℝ → ℝ := fun _ _ => 2
+    let x : Fin 1 → ℝ := fun _ => 3
+    getX Finv id (1 : Matrix (Fin 1) (Fin 1) ℝ) (getU F id (1 : Matrix (Fin 1) (Fin 1) ℝ) x) = x ∧
+    getU F id (1 : Matrix (Fin 1) (Fin 1) ℝ) (getX Finv id (1 : Matrix (Fin 1) (Fin 1) ℝ) x) = x ∧
+    jacReturnedByGetU F f id (fun _ => 1) (1 : Matrix (Fin 1) (Fin 1) ℝ) x
+      * jacReturnedByGetX Finv f id (fun _ => 1) 1 1 (getU F id 1 x) = 1 := by
+  intro F Finv f x
+  refine ⟨?_, ?_, ?_⟩
+  · exact C11_roundtrip_X F Finv id id 1 1 x (Matrix.one_mul 1) (fun _ => rfl)
+      (fun i => by simp only [F, Finv]; ring)
+  · exact C11_roundtrip_U F Finv id id 1 1 x (Matrix.one_mul 1)
+      (fun i => by simp only [F, Finv, id]; ring) (fun _ => rfl)
+  · exact (C11_jacobians_inverse_at_getU F Finv f id id (fun _ => 1) 1 1 x (Matrix.one_mul 1)
+      (Matrix.one_mul 1) (fun _ => rfl) (fun i => by simp only [F, Finv]; ring)
+      (fun _ => by simp [f]) (fun _ => one_ne_zero)).1
+
+/-- The hypotheses of the two derivative theorems are jointly satisfiable (same instance: `Φ = id`
+has derivative `φ = 1`; `F` has derivative `f = 2`; `Finv` has derivative `1 / f = 1 / 2`). -/
+example :
+    let F : Fin 1 → ℝ → ℝ := fun _ t => 2 * t + 1
+    let Finv : Fin 1 → ℝ → ℝ := fun _ p => (p - 1) / 2
+    let f : Fin 1 → ℝ → ℝ := fun _ _ => 2
+    let x : Fin 1 → ℝ := fun _ => 3
+    (∀ i j, HasDerivAt (fun t => getX Finv id (1 : Matrix (Fin 1) (Fin 1) ℝ) (Function.update x j t) i)
+      (jacReturnedByGetU F f id (fun _ => 1) 1 (getX Finv id 1 x) i j) (x j)) ∧
+    (∀ i j, HasDerivAt (fun t => getU F id (1 : Matrix (Fin 1) (Fin 1) ℝ) (Function.update x j t) i)
+      (jacReturnedByGetX Finv f id (fun _ => 1) 1 1 (getU F id 1 x) i j) (x j)) := by
+  intro F Finv f x
+  constructor
+  · refine C11_getU_matrix_is_derivative_of_getX F Finv f id id (fun _ => 1) 1 x
+      (fun t => hasDerivAt_id t) (fun i => ?_) ?_
+    · have h := ((hasDerivAt_id ((1 : Matrix (Fin 1) (Fin 1) ℝ).mulVec x i)).sub_const 1).div_const 2
+      simpa [Finv, f] using h
+    · exact C11_zOfX_getX F Finv id id 1 x (fun i => by simp only [F, Finv, id]; ring)
+        (fun _ => rfl)
+  · refine C11_getX_matrix_is_derivative_of_getU F Finv f id id (fun _ => 1) 1 1 x
+      (fun i => ?_) (fun i => ?_) ?_ ?_
+    · have h := ((hasDerivAt_id (x i)).const_mul 2).add_const 1
+      simpa [F, f] using h
+    · simpa using hasDerivAt_id (F i (x i))
+    · exact C11_roundtrip_X F Finv id id 1 1 x (Matrix.one_mul 1) (fun _ => rfl)
+        (fun i => by simp only [F, Finv]; ring)
+    · exact C11_L_mulVec_getU F id 1 1 (Matrix.one_mul 1) x
+
+end Nataf
+end FF
